@@ -189,6 +189,35 @@ PROPS = {
                      "process aborts (allocation failure, stack overflow) are detected by the driver from the shard journal and replayed twice"],
         floors=(60_000, 50_000, 500_000, 400_000),
     ),
+    "C13": simple(
+        rule="case = (1-8 redirect / redirect-rule / @@...$redirect rules aimed at one URL family with priorities incl. negative, zero, equal, "
+             "i32 extremes, malformed ':x' and ':' suffixes, exceptions re-using an existing modifier text or naming another resource, plus "
+             "plain blocking / exception / important noise; a random resource store: names, aliases, all 11 MIME kinds + template + unknown, "
+             "permissioned and missing resources; 3 requests). evaluation = engine (redirect, matched, important, exception) vs the reference "
+             "(arg-max priority among non-cancelled matching candidates, set-valued on ties; data URL iff resource resolves, is redirectable "
+             "and needs no permission; redirect= blocks, redirect-rule does not). non-trivial = >= 2 matching candidates or >= 1 candidate and "
+             ">= 1 matching exception; distinct = hash of (rules, store, request).",
+        assumptions=["@@...$redirect=x rules are also ordinary exceptions (implementation's category order); whether @@$redirect=x cancels $redirect=x:10 is not settled by the statement and not generated"],
+        floors=(200_000, 100_000, 4_000_000, 400_000),
+    ),
+    "C14": simple(
+        rule="case = (1-5 removeparam rules with patterns, type/party/domain options, plus optional blocking/important/exception noise; URLs with "
+             "hostile query strings: empty keys/values, repeated keys, '=' in values, '&&', leading/trailing '&', bare '?', '?' inside the "
+             "fragment, several '#', non-ASCII, percent escapes, keys that are prefixes/case variants of rule parameters; all request types). "
+             "evaluation = engine rewritten_url vs the independent rewriter applied with the parameters of the matching rules, plus the "
+             "oracle-free monitors: output is a deletion of whole query pieces, differs from the input, never reported together with an "
+             "important block. non-trivial = >= 1 matching removeparam rule and a non-empty query; distinct = hash of (rules, request).",
+        assumptions=["matching of the removeparam rules themselves is the per-rule matcher's (C02/C03)"],
+        floors=(300_000, 100_000, 6_000_000, 400_000),
+    ),
+    "C15": simple(
+        rule="case = (1-9 csp rules / exceptions with directives, blanket exceptions, duplicates, domain=, tag=, party options over several "
+             "pattern shapes incl. empty pattern; a permuted copy of the list built with the opposite optimise flag; 4 requests of all types, "
+             "with/without source). evaluation = set(split(csp)) of both engines vs the reference set; permuted engine must agree; non-document "
+             "types must give no policy. non-trivial = >= 2 matching csp rules or >= 1 matching csp exception; distinct = hash of (rules, tags, request).",
+        assumptions=["directives are compared as a set split on ','; generated directives contain no comma"],
+        floors=(200_000, 50_000, 5_000_000, 400_000),
+    ),
 }
 
 # ---------------------------------------------------------------------------------------------
@@ -279,6 +308,27 @@ MANIFEST_TEXT = {
         "note": "Enumeration is exhaustive for prefixes and bit flips of the listed buffers only; other buffers are not covered. A clean ASan run is not memory safety.",
         "technique": "runtime monitoring: exhaustive single-fault injection + panic/allocation monitors + state-atomicity oracle; ASan sample",
         "design_ref": "DESIGN.md §4.10",
+    },
+    "C13": {
+        "text": "Runtime differential monitor: the real engine's redirect (and blocked-ness) is compared with an independent selection oracle over "
+                "generated rule sets with competing priorities and exceptions and randomised resource stores covering every resource kind.",
+        "note": "Priority ties are set-valued in the oracle because bucket order is unspecified.",
+        "technique": "runtime monitoring: differential against a reference redirect-selection model",
+        "design_ref": "DESIGN.md §4.13",
+    },
+    "C14": {
+        "text": "Runtime differential monitor: rewritten URLs are compared with an independent byte-level rewriter and checked by oracle-free "
+                "preservation monitors on hostile query strings.",
+        "note": "The raw URL string given to Request::new is what is rewritten.",
+        "technique": "runtime monitoring: differential against a reference rewriter + preservation invariants on outputs",
+        "design_ref": "DESIGN.md §4.14",
+    },
+    "C15": {
+        "text": "Runtime differential monitor: returned CSP directive sets are compared with the reference union-minus-exceptions set and with the "
+                "answer of an engine built from a permutation of the same rules.",
+        "note": "Set comparison; order of directives in the output string is unspecified.",
+        "technique": "runtime monitoring: differential against a reference set model + order-permutation metamorphic check",
+        "design_ref": "DESIGN.md §4.15",
     },
 }
 
